@@ -92,7 +92,8 @@ Section Acct.
       | u :: up', z :: us' =>
         if u <? z then
           let '(_, out) := dstep s data ml in
-          Z.max (zlen data + zlen out) (chain_peak ss' up' us' out ml)
+          if stop_here ss' data (trim_out ss' out (z - u)) then zlen data + zlen out
+          else Z.max (zlen data + zlen out) (chain_peak ss' up' us' (trim_out ss' out (z - u)) ml)
         else if zlen data =? 0 then chain_peak ss' up' us' [] ml
         else 0
       | _, _ => 0
@@ -448,7 +449,10 @@ Section AcctProofs.
       destruct (u <? z).
       - pose proof (honours_max s data ml) as Hh. pose proof (honest_step s data ml) as Hs.
         destruct (dstep s data ml) as [s1 o]. simpl in Hh, Hs.
-        destruct (chain_run dstep ss up us o ml) as [[[ss2 up2] d]|e] eqn:E;
+        destruct (stop_here ss data (trim_out ss o (z - u))) eqn:Est.
+        { apply stop_here_true in Est. destruct Est as (_ & _ & Hne). injection H as <- _ <-. rewrite zlen_nil.
+          destruct ss as [|s2 ss]; [congruence|]. split; [lia|exact Hok]. }
+        destruct (chain_run dstep ss up us (trim_out ss o (z - u)) ml) as [[[ss2 up2] d]|e] eqn:E;
           simpl in H; [|discriminate].
         injection H as <- _ <-.
         destruct ss as [|s2 ss].
@@ -481,7 +485,10 @@ Section AcctProofs.
       destruct (u <? z).
       - pose proof (honest_step s data ml) as Hs.
         destruct (dstep s data ml) as [s1 o]. simpl in Hs.
-        destruct (chain_run dstep ss up us o ml) as [[[ss2 up2] d]|e] eqn:E;
+        destruct (stop_here ss data (trim_out ss o (z - u))) eqn:Est.
+        { apply stop_here_true in Est. destruct Est as (_ & _ & Hne). injection H as <- _ _.
+          destruct ss as [|s2 ss]; [congruence|]. exact Hok. }
+        destruct (chain_run dstep ss up us (trim_out ss o (z - u)) ml) as [[[ss2 up2] d]|e] eqn:E;
           simpl in H; [|discriminate].
         injection H as <- _ _.
         destruct ss as [|s2 ss].
@@ -645,7 +652,10 @@ Section AcctProofs.
       destruct (u <? z).
       - pose proof (honours_slack s data ml) as Hh. pose proof (nearly_step s data ml) as Hs.
         destruct (dstep s data ml) as [s1 o]. simpl in Hh, Hs.
-        destruct (chain_run dstep ss up us o ml) as [[[ss2 up2] d]|e] eqn:E;
+        destruct (stop_here ss data (trim_out ss o (z - u))) eqn:Est.
+        { apply stop_here_true in Est. destruct Est as (_ & _ & Hne). injection H as <- _ <-. rewrite zlen_nil.
+          destruct ss as [|s2 ss]; [congruence|]. split; [lia|exact Hok]. }
+        destruct (chain_run dstep ss up us (trim_out ss o (z - u)) ml) as [[[ss2 up2] d]|e] eqn:E;
           simpl in H; [|discriminate].
         injection H as <- _ <-.
         destruct ss as [|s2 ss].
@@ -779,15 +789,24 @@ Section AcctProofs.
       - destruct up as [|u up]; [discriminate|]. destruct us as [|z us]; [discriminate|].
         inversion Ht as [|? ? Hts Htss]; subst. cbn [length exp_iter chain_peak].
         pose proof (zlen_nonneg data) as Hd0.
-        destruct (u <? z).
-        + pose proof (expansion s data ml Hts) as Hx. pose proof (tame_step s data ml Hts) as Hs1.
-          destruct (dstep s data ml) as [s1 o]. simpl in Hx, Hs1.
+        destruct (u <? z) eqn:Eg.
+        + apply Z.ltb_lt in Eg.
+          pose proof (expansion s data ml Hts) as Hx. pose proof (tame_step s data ml Hts) as Hs1.
+          destruct (dstep s data ml) as [s1 o0]. simpl in Hx, Hs1.
+          pose proof (trim_out_le ss o0 (z - u) ltac:(lia)) as Htr.
+          set (o := trim_out ss o0 (z - u)) in *.
+          pose proof (exp_iter_ge (length ss) (r * zlen data + c0) ltac:(nia)) as Hg0.
+          pose proof (zlen_nonneg o0) as Ho000.
+          destruct (stop_here ss data o) eqn:Est.
+          { injection H as <- _ <-. rewrite zlen_nil.
+            split; [nia|]. split; [apply Forall_cons; assumption|nia]. }
           destruct (chain_run dstep ss up us o ml) as [[[ss2 up2] d]|e] eqn:Ec;
             simpl in H; [|discriminate].
           injection H as <- _ <-.
           destruct (IH Htss _ _ _ _ _ _ _ Ec) as (Hle & Ht2 & Hpk).
-          pose proof (exp_iter_mono (length ss) _ _ Hx) as Hm.
-          pose proof (zlen_nonneg o) as Ho0.
+          assert (Hx' : zlen o <= r * zlen data + c0) by lia.
+          pose proof (exp_iter_mono (length ss) _ _ Hx') as Hm.
+          pose proof (zlen_nonneg o) as Ho0. pose proof (zlen_nonneg o0) as Ho00.
           pose proof (exp_iter_ge (length ss) (r * zlen data + c0) ltac:(nia)) as Hg.
           split; [lia|]. split; [apply Forall_cons; assumption|]. nia.
         + destruct (zlen data =? 0) eqn:Ez; [|discriminate].
@@ -870,11 +889,15 @@ Section AcctProofs.
           pose proof (zlen_nonneg x) as Hx0.
           pose proof (exp_iter_ge (length ss) (r * zlen x + c0) ltac:(nia)) as Hg.
           destruct up as [|u up]; [lia|]. destruct us as [|z us]; [lia|].
-          destruct (u <? z).
-          + pose proof (expansion s x ml' Hs) as Hx.
+          destruct (u <? z) eqn:Eg.
+          + apply Z.ltb_lt in Eg. pose proof (expansion s x ml' Hs) as Hx.
             destruct (dstep s x ml') as [s1 o]. simpl in Hx.
-            pose proof (IH Hss up us o ml') as Hi.
-            pose proof (exp_iter_mono (length ss) _ _ Hx). pose proof (zlen_nonneg o). nia.
+            pose proof (trim_out_le ss o (z - u) ltac:(lia)) as Htr.
+            pose proof (IH Hss up us (trim_out ss o (z - u)) ml') as Hi.
+            assert (Hx' : zlen (trim_out ss o (z - u)) <= r * zlen x + c0) by lia.
+            pose proof (exp_iter_mono (length ss) _ _ Hx'). pose proof (zlen_nonneg o).
+            pose proof (zlen_nonneg (trim_out ss o (z - u))).
+            destruct (stop_here ss x (trim_out ss o (z - u))); nia.
           + destruct (zlen x =? 0); [|lia].
             pose proof (IH Hss up us [] ml') as Hi. rewrite zlen_nil in Hi.
             pose proof (exp_iter_mono (length ss) 0 (r * zlen x + c0) ltac:(nia)). lia. }
@@ -938,7 +961,9 @@ Section AcctProofs.
       destruct (u <? z).
       - pose proof (held_step s data ml) as Hh.
         destruct (dstep s data ml) as [s1 o]. simpl in Hh.
-        destruct (chain_run dstep ss up us o ml) as [[[ss2 up2] d]|e]; simpl in H; [|discriminate].
+        destruct (stop_here ss data (trim_out ss o (z - u)));
+          [injection H as <- _ _; exists s1, ss; split; [reflexivity|exact Hh]|].
+        destruct (chain_run dstep ss up us (trim_out ss o (z - u)) ml) as [[[ss2 up2] d]|e]; simpl in H; [|discriminate].
         injection H as <- _ _. exists s1, ss2. split; [reflexivity|exact Hh].
       - destruct (zlen data =? 0); [|discriminate].
         destruct (chain_run dstep ss up us [] ml) as [[[ss2 up2] d]|e]; simpl in H; [|discriminate].
@@ -1195,7 +1220,7 @@ Proof.
   { unfold run_chain. rewrite Hs1, Hu1, Hz1. simpl chain_run.
     destruct (0 <? z) eqn:E; [|destruct (Z.ltb_spec 0 z); [discriminate|lia]].
     unfold toy_st, mtoy_dstep. change (2 =? 1) with false. change (2 =? 2) with true.
-    cbv iota. simpl. eexists. reflexivity. }
+    cbv iota. simpl. rewrite stop_here_last. eexists. reflexivity. }
   destruct Hrc as (st2 & Hrc).
   destruct (decompress_fresh_overflow mtoy_dstep st st1 st2 ml (length fp) data tmp
               eq_refl eq_refl eq_refl Hml Hrd Hrc ltac:(lia)) as (st' & Hd & Hb' & Hp').
